@@ -1,5 +1,6 @@
 import PygVerif.Model.Zip
 import PygVerif.Lemmas.ZipTree
+import PygVerif.Lemmas.ZipSite
 import PygVerif.Props.C01
 /-!
 # C16 — ZIP archives are transparent
@@ -491,5 +492,58 @@ example : (buildIndex [⟨lit "dir/file.txt", lit "dir/file.txt", false, []⟩,
                 (toTree ix (fun o => o) 4 []).names)) =
   some (some (lit "dir/file.txt"), some [lit "file.txt"], some [lit "dir", lit "link1"]) := by
   decide +kernel
+
+/-! ### same listings, same documents, same not-found answers -/
+
+/-- **Browsing into the archive is browsing the extracted tree — through the handlers.**
+    `T = toTree ix data F []` is the tree the archive stands for (`hsat`: saturated, as
+    `toTree_saturates` shows for link-free archives); `R` is a document root holding `T` at
+    the archive's selector `Z`, and equal to the underlying file system elsewhere.  For every
+    good selector (`/a/b/c`), every configuration and sidecar table:
+
+    * the same handler claims it (`dispatch`), so the same not-found answers;
+    * the same document bytes are served (`serve`);
+    * a plain directory listing has the same entries — members, their types, sizes, names,
+      sidecar abstracts, `.cap` overrides and link files all come out of the same `Child`
+      records (`siteEntries`, whatever `dirListing` does with them). -/
+theorem archive_browsing_equals_extracted_tree (ix : Index) (data : Str → Bytes) (F : Nat)
+    (hsat : ∀ f t, F ≤ f → toTree ix data f t = toTree ix data F t)
+    (Z : Str) (hZ : Good Z) (R : Node) (hR : lwalk R (splitOn 47 Z) = some (toTree ix data F []))
+    (chain : StatFn) (hout : ∀ p, Good p → inArchive Z p = false → chain p = treeStat R p)
+    (c : SiteCfg) (hext : ∀ e ∈ c.eaexts, ExtOk e.1)
+    (hnames : ∀ p ks, zipStat ix data F Z chain p = some (.dir ks) → ∀ nk ∈ ks, validName nk.1 = true)
+    (sel : Str) (hs : Good sel) :
+    dispatch c (zipStat ix data F Z chain) sel = dispatch c (treeStat R) sel ∧
+    serve c (zipStat ix data F Z chain) sel = serve c (treeStat R) sel ∧
+    (dispatch c (zipStat ix data F Z chain) sel = .dir →
+      siteEntries c (zipStat ix data F Z chain) sel = siteEntries c (treeStat R) sel) := by
+  have hag := zip_view_agrees ix data F hsat Z hZ R hR chain hout
+  exact ⟨dispatchG hag c sel hs, serveG hag c sel hs, fun hd => dirEntriesG hag c hext hnames sel hs hd⟩
+
+/-- the same for link-free archives, whose tree needs no saturation hypothesis: it is `toTree … (D + 1) []`
+    for any bound `D` on the length of member paths -/
+theorem linkfree_archive_browsing_equals_extracted_tree (ix : Index) (data : Str → Bytes) (hal : ix.aliases = []) (D : Nat)
+    (hD : ∀ q ∈ ix.nodes, q.1.length ≤ D)
+    (Z : Str) (hZ : Good Z) (R : Node) (hR : lwalk R (splitOn 47 Z) = some (toTree ix data (D + 1) []))
+    (chain : StatFn) (hout : ∀ p, Good p → inArchive Z p = false → chain p = treeStat R p)
+    (c : SiteCfg) (hext : ∀ e ∈ c.eaexts, ExtOk e.1)
+    (hnames : ∀ p ks, zipStat ix data (D + 1) Z chain p = some (.dir ks) → ∀ nk ∈ ks, validName nk.1 = true)
+    (sel : Str) (hs : Good sel) :
+    dispatch c (zipStat ix data (D + 1) Z chain) sel = dispatch c (treeStat R) sel ∧
+    serve c (zipStat ix data (D + 1) Z chain) sel = serve c (treeStat R) sel ∧
+    (dispatch c (zipStat ix data (D + 1) Z chain) sel = .dir →
+      siteEntries c (zipStat ix data (D + 1) Z chain) sel = siteEntries c (treeStat R) sel) :=
+  archive_browsing_equals_extracted_tree ix data (D + 1)
+    (fun f t hf => toTree_saturates ix data hal D hD (D + 1) f t (by omega) hf) Z hZ R hR chain hout c hext hnames sel hs
+
+/-- the view `treeStat` is `VFS_Real.stat` for every selector `os.fsencode` accepts -/
+theorem treeStat_is_statAt (R : Node) (sel : Str) (h : (encodeSE sel).isSome = true) : statAt R sel = treeStat R sel := by
+  unfold statAt treeStat
+  have : (encodeSE sel).isNone = false := by cases he : encodeSE sel <;> simp_all
+  simp [this]
+
+/-- non-vacuity: `/a.zip/dir/file.txt` is a good selector below the good archive selector `/a.zip` -/
+example : Good (lit "/a.zip") ∧ Good (lit "/a.zip/dir/file.txt") ∧ inArchive (lit "/a.zip") (lit "/a.zip/dir/file.txt") = true := by
+  refine ⟨⟨by decide, by decide, by decide⟩, ⟨by decide, by decide, by decide⟩, by decide⟩
 
 end Pyg.Props.C16
